@@ -19,7 +19,7 @@ that came in over a given ingestion path in a given wire encoding.  It mirrors
 * OTLP:                   husky writes attributes with `msgp.AppendInt64 / AppendFloat64 / AppendString /
                           AppendBool`; read back with `msgp.ReadIntfBytes`
 * forwarded by a peer:    the first node re-encodes the (memoized) value with `Payload.MarshalMsg` →
-                          `msgp.AppendIntf`, the peer reads it with `msgp.ReadIntfBytes`.  `AppendUint64`
+                          `appendValue` → `msgp.AppendIntf` (scalars), the peer reads it with `msgp.ReadIntfBytes`.  `AppendUint64`
                           writes values below 128 as a positive fixint, which reads back as `int64`.
 
 Numbers are exact rationals `num/den` in lowest terms (every finite float is one); the harness only
